@@ -187,6 +187,7 @@ structure Mon where
   flagsClean : Bool := false                -- no refused rotation since the last open (a refusal re-flags against tentative seats)
   fundedAtTick : Nat := 0                   -- seated-in players with chips when the continue handler ran
   expectOpen : Bool := false                -- the gate was set up by the continue handler with ≥ 2 funded players
+  lastArgs : List String := []              -- arguments and result (`res:<token>`) of the operation being observed
 
 def argNat (ts : List String) (k : String) : Option Nat :=
   ts.findSome? (fun t => match t.splitOn "=" with | [a, b] => if a == k then b.toNat? else none | _ => none)
@@ -195,6 +196,7 @@ def argInt (ts : List String) (k : String) : Option Int :=
 
 /-- bookkeeping at an operation line (before its observation) -/
 def noteOp (m : Mon) (label : String) (args : List String) (ok : Bool) (_prev : Option Obs) : Mon :=
+  let m := { m with lastArgs := args }
   match label with
   | "redeem" => if ok then { m with broughtIn := m.broughtIn + (argInt args "chips").getD 0 } else m
   | "close" => { m with closedSeen := true }
@@ -418,6 +420,17 @@ def onObs (m : Mon) (label : String) (ok : Bool) (membership : Bool) (prev : Opt
           | none => false)
         (m, (if okFlag then [] else ["C05.newcomer-waiting-flag-wrong"]) ++ rebuyTerms m p o sm)
       | _, _ => (m, [])
+    else if label == "reserve" && !ok then
+      -- C03: a vacated (free) seat can be taken again — a single reservation is never refused for lack of seats while
+      -- the table shows the requested seat (or, for a random seat, any seat) free and the player is new
+      match prev with
+      | some p =>
+        let noSeats := m.lastArgs.any (fun t => t == "res:noEmptySeats" || t == "res:sm.notEnoughSeats")
+        let seat := (argInt m.lastArgs "seat").getD (-1)
+        let free := if seat == -1 then p.seatMap.any (· == -1) else seatMapGet p.seatMap seat == some (-1)
+        let isNew := match argNat m.lastArgs "id" with | some id => !(p.players.any (·.id == id)) | none => false
+        (m, if noSeats && free && isNew then ["C03.free-seat-refused-for-lack-of-seats"] else [])
+      | none => (m, [])
     else if label == "redeem" && ok then
       match prev, o.sm with
       | some p, some sm => (m, rebuyTerms m p o sm)
